@@ -52,7 +52,7 @@ let predict (c : string) (obs : string) : string * string * bool =
       let unl = String.length spec >= 4 && String.sub spec 0 4 = "unl:" in
       let want = Printf.sprintf "0 %s 0" (if unl then "0" else reps) in
       (want, verdict (obs = want) ("finish callback must fire exactly once, and only when the schedule has ended; expected " ^ want), true)
-  | ["start"; per; _t; _rps; _a; k; _st; _shoot; _cancel; failgun; _provrun] ->
+  | "start" :: per :: _t :: _rps :: _a :: k :: _st :: _shoot :: _cancel :: failgun :: _provrun :: ([] | [_]) ->
       let k = int_of_string k in
       (match split_blank obs with
        | [outcome; started; finished; ids; distinct; notahead; ammo_out; rps_fin; ext; fail; endclass; conserved; late; onprofile; attempts] ->
